@@ -54,11 +54,27 @@ pub fn det_source(idx: u64) -> String {
         }
     };
     shuffle(&mut order, &mut rng);
+    // parameter lists (a prototype followed by its definition declares the parameter cells twice)
+    let nparams: Vec<usize> = (0..nf).map(|_| rng.below(3) as usize).collect();
+    let sig = |f: usize| -> String {
+        match nparams[f] {
+            0 => String::new(),
+            1 => "unsigned char u".to_string(),
+            _ => "unsigned char u, char *w".to_string(),
+        }
+    };
+    let call = |f: usize| -> String {
+        match nparams[f] {
+            0 => format!("f{}()", f),
+            1 => format!("f{}(7)", f),
+            _ => format!("f{}(7, \"{}\")", f, WORDS[f % WORDS.len()]),
+        }
+    };
     let nproto = rng.below(nf as u64 + 1) as usize;
     for f in order.iter().take(nproto) {
-        s.push_str(&format!("void f{}();\n", f));
+        s.push_str(&format!("void f{}({});\n", f, sig(*f)));
         if rng.chance(1, 5) {
-            s.push_str(&format!("void f{}();\n", f)); // redeclared
+            s.push_str(&format!("void f{}({});\n", f, sig(*f))); // redeclared
         }
     }
     if rng.chance(1, 3) {
@@ -68,7 +84,7 @@ pub fn det_source(idx: u64) -> String {
     shuffle(&mut deforder, &mut rng);
     let lit = |rng: &mut Rng| format!("\"{}\"", rng.pick(WORDS));
     for (k, f) in deforder.iter().enumerate() {
-        s.push_str(&format!("void f{}() {{\n", f));
+        s.push_str(&format!("void f{}({}) {{\n", f, sig(*f)));
         let nl = rng.range(0, 3);
         for l in 0..nl {
             s.push_str(&format!("  unsigned char l{} = {};\n", l, rng.below(100)));
@@ -86,7 +102,7 @@ pub fn det_source(idx: u64) -> String {
                     // call an already *defined or declared* function
                     let callee = deforder[rng.below(k as u64 + 1) as usize];
                     if callee != *f && (deforder[..k].contains(&callee) || order[..nproto].contains(&callee)) {
-                        s.push_str(&format!("  f{}();\n", callee));
+                        s.push_str(&format!("  {};\n", call(callee)));
                     } else {
                         s.push_str("  b = a + 1;\n");
                     }
@@ -99,7 +115,7 @@ pub fn det_source(idx: u64) -> String {
     s.push_str("void main() {\n");
     for f in 0..nf {
         if rng.chance(2, 3) {
-            s.push_str(&format!("  f{}();\n", f));
+            s.push_str(&format!("  {};\n", call(f)));
         }
     }
     s.push_str(&format!("  pr2({}, {});\n", lit(&mut rng), lit(&mut rng)));
@@ -253,6 +269,7 @@ fn judge(kind: &str, idx: u64, src: &str, opts: &Opts, sig: Option<String>) -> C
 pub fn c05_pins() -> Vec<(&'static str, &'static str)> {
     vec![
         ("literal_order", "char *p; char *q;\nvoid pr2(char *x, char *y) { p = x; q = y; }\nvoid main() { pr2(\"hello\", \"world\"); p = \"abc\", q = \"defg\"; }\n"),
+        ("parameter_rank", "unsigned char a;\nvoid f(unsigned char v, char *w);\nvoid g(unsigned char v);\nvoid f(unsigned char v, char *w) { a = v; }\nvoid g(unsigned char v) { a = v; }\nvoid main() { f(1, \"x\"); g(2); csleep(5); }\n"),
         ("function_order", "unsigned char a;\nvoid f(); void g();\nvoid f() { a = 1; }\nvoid h() { a = 2; }\nvoid g() { a = 3; }\nvoid k();\nvoid main() { f(); g(); h(); }\nvoid k() { a = 4; }\n"),
     ]
 }
